@@ -351,3 +351,137 @@ pub fn ne_checked_sub_a(i: usize, d: usize) -> usize {
 pub fn ne_checked_sub_b(i: usize, d: usize) -> usize {
     d.checked_sub(i).unwrap_or(0)
 }
+
+// ---- round 6: let-else with continue vs guarded body
+pub fn eq_letelse_a(n: usize, d: usize, out: &mut [f64]) {
+    for i in 0..n {
+        let Some(r) = i.checked_sub(d) else {
+            continue;
+        };
+        out[r] = 1.0;
+    }
+}
+pub fn eq_letelse_b(n: usize, d: usize, out: &mut [f64]) {
+    for i in 0..n {
+        if i >= d {
+            out[i - d] = 1.0;
+        }
+    }
+}
+
+// repeat_with(..).take(n).collect() vs a push loop (stateful generator)
+pub fn eq_repeatwith_a(n: usize, seed: &mut f64) -> Vec<f64> {
+    let mut v = Vec::with_capacity(n);
+    for _ in 0..n {
+        *seed = *seed * 3.0 + 1.0;
+        v.push(*seed);
+    }
+    v
+}
+pub fn eq_repeatwith_b(n: usize, seed: &mut f64) -> Vec<f64> {
+    std::iter::repeat_with(|| {
+        *seed = *seed * 3.0 + 1.0;
+        *seed
+    })
+    .take(n)
+    .collect()
+}
+
+// zip with a skipped copy vs index arithmetic
+pub fn eq_skip_a(xs: &[f64]) -> Vec<f64> {
+    let n = xs.len();
+    let mut out = Vec::new();
+    for lag in 0..n {
+        let mut s = 0.0;
+        for t in 0..(n - lag) {
+            s += xs[t] * xs[t + lag];
+        }
+        out.push(s);
+    }
+    out
+}
+pub fn eq_skip_b(xs: &[f64]) -> Vec<f64> {
+    let n = xs.len();
+    let mut out = Vec::new();
+    for lag in 0..n {
+        let mut s = 0.0;
+        for (a, b) in xs.iter().zip(xs.iter().skip(lag)) {
+            s += a * b;
+        }
+        out.push(s);
+    }
+    out
+}
+// skipping one more is different
+pub fn ne_skip_a(xs: &[f64]) -> Vec<f64> {
+    eq_skip_b(xs)
+}
+pub fn ne_skip_b(xs: &[f64]) -> Vec<f64> {
+    let n = xs.len();
+    let mut out = Vec::new();
+    for lag in 0..n {
+        let mut s = 0.0;
+        for (a, b) in xs.iter().zip(xs.iter().skip(lag + 1)) {
+            s += a * b;
+        }
+        out.push(s);
+    }
+    out
+}
+
+// f64::from(flag) vs `flag as i32 as f64`
+pub fn eq_frombool_a(a: f64, b: f64, p: f64) -> f64 {
+    0.99 * p + 0.01 * ((a != b) as i32 as f64)
+}
+pub fn eq_frombool_b(a: f64, b: f64, p: f64) -> f64 {
+    0.99 * p + 0.01 * f64::from(a != b)
+}
+
+// std::iter::zip(a, b) vs a.iter().zip(b.iter())
+pub fn eq_iterzip_a(a: &[f64], b: &[f64]) -> f64 {
+    let mut s = 0.0;
+    for (&x, &y) in a.iter().zip(b.iter()) {
+        s += (y - x) * (y - x);
+    }
+    s
+}
+pub fn eq_iterzip_b(a: &[f64], b: &[f64]) -> f64 {
+    let mut s = 0.0;
+    for (&x, &y) in std::iter::zip(a, b) {
+        s += (y - x) * (y - x);
+    }
+    s
+}
+
+// chain(..).collect() vs vec + extend
+pub fn eq_chain_a(n: usize) -> Vec<usize> {
+    let mut v = vec![7usize, 9usize];
+    v.extend((0..n).map(|i| i * 2));
+    v
+}
+pub fn eq_chain_b(n: usize) -> Vec<usize> {
+    [7usize, 9usize].into_iter().chain((0..n).map(|i| i * 2)).collect()
+}
+// the two parts in the other order
+pub fn ne_chain_a(n: usize) -> Vec<usize> {
+    eq_chain_b(n)
+}
+pub fn ne_chain_b(n: usize) -> Vec<usize> {
+    (0..n).map(|i| i * 2).chain([7usize, 9usize]).collect()
+}
+
+// inspect_err(..)? vs match with an early return
+pub fn eq_inspect_a(r: Result<f64, String>, log: &mut Vec<String>) -> Result<f64, String> {
+    let v = match r {
+        Ok(v) => v,
+        Err(e) => {
+            log.push(e.clone());
+            return Err(e);
+        }
+    };
+    Ok(v * 2.0)
+}
+pub fn eq_inspect_b(r: Result<f64, String>, log: &mut Vec<String>) -> Result<f64, String> {
+    let v = r.inspect_err(|e| log.push(e.clone()))?;
+    Ok(v * 2.0)
+}
